@@ -610,7 +610,15 @@ def _small(b):
     return info['k'] >= 0 and info['n'] < info['p'] + info['k']
 
 
-def classify(s, res=None):
+_CLASS_MESSAGES = {
+    'constructor-accepts-non-periodic-knot-vector': ('periods it is', 'at start (from above) but', 'jumps at the seam', 'raised'),
+    'make-periodic-weights-continuity>=2': ('control points after the round trip differ',),
+    'periodic-insert-small-basis': ('after the round trip', 'raised', 'the original object gives', 'cannot be evaluated',
+                                    'the period changed', 'has periodicity', 'has domain'),
+}
+
+
+def _spec_class(s):
     k = s['kind']
     if k == 'ctor':
         b = s['basis']
@@ -629,6 +637,18 @@ def classify(s, res=None):
         if _small(b):
             return 'periodic-insert-small-basis'
         return None
+    return None
+
+
+def classify(s, res=None):
+    """Known-finding class: decided by the spec AND, when the oracle failed, by the failure message
+    (a class only covers its own symptoms and cannot hide a new kind of failure)."""
+    cls = _spec_class(s)
+    if cls is None or not res or not res.get('oracle'):
+        return cls
+    msg = str(res['oracle'][0])
+    if any(m in msg for m in _CLASS_MESSAGES.get(cls, ())):
+        return cls
     return None
 
 
